@@ -347,11 +347,8 @@ pub fn run(opts: &Opts) -> i32 {
                     maxlen = maxlen.max(len);
                 }
                 Err(e) => {
-                    let again = run_sequence(kind, handles, &seqs[i]);
-                    if again.as_ref().err().map(|x| x.split(':').next().map(|s| s.to_string())) != Some(e.split(':').next().map(|s| s.to_string())) {
-                        eprintln!("MACHINERY ERROR: C08 violation does not replay deterministically: {e} vs {again:?}");
-                        std::process::exit(2);
-                    }
+                    let note = crate::util::confirm_or_exit("C08", &e, || run_sequence(kind, handles, &seqs[i]).err());
+                    let e = format!("{e}{note}");
                     rep.violation(Violation::new(
                         format!("{}:{kind:?}", e.split(':').next().unwrap_or("")),
                         e.clone(),
